@@ -49,6 +49,9 @@ def den : RTree → W (List Int)
   | .un op s => do
     let a ← den s
     pure [op a.sum]
+  | .unChain ops s => do
+    let a ← den s
+    pure [ops.foldl (fun v f => f v) a.sum]
   | .filt p srcs => do
     let vs ← denAll srcs
     pure (vs.filter p)
